@@ -150,7 +150,10 @@ def rule_contain(chk, only=None):
         esc = ct.escaping(f)
         bad = []
         for src, path in esc:
-            key = (src.func.fq, src.kind if src.kind != "unknown" else "foreign", source_descriptor(src))
+            fq_ = src.func.fq
+            if fq_.startswith("_action:preserve_context.") and not src.func.is_lambda:
+                fq_ = "_action:preserve_context.restore_eliot_context"   # whichever nested function of preserve_context runs the application's f / rejects the repeat call
+            key = (fq_, src.kind if src.kind != "unknown" else "foreign", source_descriptor(src))
             if key in ALLOWED:
                 continue
             if _optional_argument_validation(ctx, src):
@@ -172,6 +175,65 @@ def rule_contain(chk, only=None):
             chk.bad("C07.contain", "%s<-%s" % (label, src.key), src.where,
                     "exception can propagate out of %s: %s%s" % (label, ct.fmt_path(f, src, path), why),
                     sites=len(path) + 1)
+
+
+def rule_exc_info_shape(chk):
+    """write_traceback / _write_extractor_traceback unpack a (type, value, traceback) triple.  What they unpack must be a triple on every
+    path: the whole result of sys.exc_info(), a 3-tuple, or the caller's exc_info argument.  One element of sys.exc_info() is None
+    whenever no exception is being handled (a call after the except block ended, from a finally, a callback, a fresh thread), and
+    unpacking None raises TypeError into the application."""
+    ctx = chk.ctx
+    n_sites = 0
+    for q in ("write_traceback", "_write_extractor_traceback"):
+        f = ctx.func("_traceback", q)
+        cfg = ctx.cfg(f)
+        params = set(f.params)
+
+        def classify(e, depth=0):
+            if isinstance(e, ast.Call) and unparse(e.func) in ("sys.exc_info", "exc_info"):
+                return "triple"
+            if isinstance(e, ast.Tuple) and len(e.elts) == 3:
+                return "triple"
+            if isinstance(e, ast.Subscript) and isinstance(e.value, ast.Call) and unparse(e.value.func) in ("sys.exc_info", "exc_info"):
+                return "nullable"
+            if isinstance(e, ast.Name) and e.id in params and not stores_to_name(f, e.id):
+                return "param"
+            return "other"
+        for u in cfg.live:
+            a = u.ast
+            if not (isinstance(a, ast.Assign) and len(a.targets) == 1 and isinstance(a.targets[0], ast.Tuple) and len(a.targets[0].elts) == 3 and u.kind != "test"):
+                continue
+            n_sites += 1
+            v = a.value
+            if not isinstance(v, ast.Name):
+                k = classify(v)
+                chk.req(k in ("triple", "param"), "C07.excinfo", "%s:unpacks-a-triple" % q, chk.where(f, u.lineno), good="unpacks %s" % unparse(v)[:40],
+                        fail="unpacks %s, which is not a (type, value, traceback) triple on every call" % unparse(v)[:50])
+                continue
+            defs = [d for d in cfg.live if isinstance(d.ast, ast.Assign) and d.kind != "test" and any(isinstance(t, ast.Name) and t.id == v.id for t in d.ast.targets)]
+            bad, unknown = [], []
+            if v.id in params:
+                pass  # the argument as given: a triple by contract
+            for d in defs:
+                k = classify(d.ast.value)
+                others = {x for x in defs if x is not d}
+                dead = common.infeasible_edges(cfg, f, start=d)   # `x = None` directly followed by `if x is None:` -- the other branch cannot be taken
+                reaches = u in cfg.reach([s_ for s_, l_ in d.succ if l_ != "exc"], avoid=others, avoid_edges=dead) or any(s_ is u for s_, l_ in d.succ)
+                if not reaches:
+                    continue
+                if k == "nullable":
+                    bad.append(d)
+                elif k == "other":
+                    unknown.append(d)
+            if bad:
+                chk.bad("C07.excinfo", "%s:unpacks-a-triple" % q, chk.where(f, bad[0].lineno),
+                        "`%s` reaches the unpacking at line %d: one element of sys.exc_info() is None whenever no exception is being handled (after the except block, in a finally, a callback, "
+                        "a new thread), None is not turned into a triple on that path, and unpacking it raises TypeError into the application" % (unparse(bad[0].ast)[:60], u.lineno))
+            elif unknown:
+                raise AnalysisError("%s: the unpacked value comes from `%s` (shape not modelled)" % (q, unparse(unknown[0].ast)[:60]))
+            else:
+                chk.ok("C07.excinfo", "%s:unpacks-a-triple" % q, chk.where(f, u.lineno), "every definition reaching the unpacking is sys.exc_info() / a 3-tuple / the argument")
+    chk.need(n_sites >= 2, "_traceback: the (type, value, traceback) unpackings were not found")
 
 
 def core_sites(chk):
@@ -667,6 +729,7 @@ def run(chk):
     from . import c10
     c10.rule_rich(chk)
     rule_contain(chk)
+    rule_exc_info_shape(chk)
     rule_core(chk)
     rule_mem_validate(chk)
     rule_cycles(chk)
